@@ -3858,6 +3858,124 @@ def check_reset_state(ck, facts):
 
 
 # -------------------------------------------------------------------------------------------------
+# clause 8: the size tables the serialiser reads follow every (re)allocation of an array
+# -------------------------------------------------------------------------------------------------
+
+def norm_extent(t):
+    """this._x() and this.x() denote the same scalar slot"""
+    return re.sub(r"this\._(\w+)\(\)", r"this.\1()", t or "")
+
+
+def alloc_extent(L, f, n):
+    """n is `allocate_memory<T>(N)` or a local initialised with one -> canonical N, else None"""
+    n = through_consts(f, n)
+    if n is not None and n.get("k") == "Call" and strip_targs(n.get("callee", "")).endswith("MemoryPool::allocate_memory") and n.get("a"):
+        return L.canon(n["a"][0])
+    return None
+
+
+def check_size_tables(ck, facts):
+    """every member function of a Container-derived class that puts a freshly allocated array into this->_elements / this->_indices
+    (push_back or replacement of a slot) records the extent of that allocation in the matching entry of _elements_size / _indices_size
+    on every path through the allocation.  Container::_serialize / _serialized_size / clone trust exactly these entries."""
+    R = "E7.size-table-follows-array"
+    seen = set()
+    for f in sorted(facts.functions, key=lambda f: f.full):
+        if f.tk == "pattern" or not re.match(r"^FEAT::LAFEM::", f.cls or "") or (f.file, f.line) in seen:
+            continue
+        events = []     # (vector, kind push|slot, slot text, node, extent)
+        L = None
+        for n in f.nodes():
+            vec = kind = slot = src = None
+            if n.get("k") == "MCall" and n.get("n") == "push_back" and this_member(n.get("obj"), SLOT_VECTORS) and n.get("a"):
+                vec, kind, slot, src = strip_cast(n["obj"])["n"], "push", "", n["a"][0]
+            elif n.get("k") == "Assign" and n.get("op") == "=":
+                l = strip_cast(n["lhs"])
+                if l.get("k") == "MCall" and l.get("n") == "at" and this_member(l.get("obj"), SLOT_VECTORS):
+                    vec, kind, slot, src = strip_cast(l["obj"])["n"], "slot", render(l["a"][0]), n["rhs"]
+            if vec is None:
+                continue
+            if L is None:
+                L = LayoutFn(f, "w")
+            try:
+                ext = alloc_extent(L, f, src)
+            except Unknown:
+                ext = None
+            if ext is None:
+                continue      # arrays taken over from elsewhere (shared, moved, foreign): not an allocation of this routine
+            events.append((vec, kind, slot, n, ext))
+        if not events:
+            continue
+        seen.add((f.file, f.line))
+        cfg = f.cfg
+        par = parent_map(f)
+        sc = strip_targs(short_cls(f.cls))
+        fname = f.name if not f.d.get("ctor") else "ctor(%s)" % ",".join(p_["n"] for p_ in f.params)
+        ordinal = {}
+        for vec, kind, slot, n, ext in events:
+            svec = vec + "_size"
+            base = "%s::%s/%s%s" % (sc, fname, vec, ".push_back" if kind == "push" else ".at(%s)=" % slot)
+            ordinal[base] = ordinal.get(base, 0) + 1
+            key = base + ("#%d" % ordinal[base] if ordinal[base] > 1 else "")
+            if norm_extent(ext).startswith("this.%s[" % svec):
+                ck.ob(R, key, True, "allocated with the extent read from %s itself (%s)" % (svec, ext), f.file, n.get("l"), trivial=True)
+                continue
+            # matching updates of the size table
+            ups = []
+            for x in f.nodes():
+                if kind == "push" and x.get("k") == "MCall" and x.get("n") == "push_back" and this_member(x.get("obj"), (svec,)) and x.get("a"):
+                    ups.append((x, L.canon(x["a"][0])))
+                if kind == "slot" and x.get("k") == "Assign" and x.get("op") == "=":
+                    l = strip_cast(x["lhs"])
+                    if l.get("k") == "MCall" and l.get("n") == "at" and this_member(l.get("obj"), (svec,)) and render(l["a"][0]) == slot:
+                        ups.append((x, L.canon(x["rhs"])))
+            wholesale = [x for x in f.nodes() if x.get("k") == "MCall" and x.get("n") in ("assign", "swap", "resize") and this_member(x.get("obj"), (svec,))] + \
+                        [x for x in f.nodes() if (x.get("k") == "Assign" or (x.get("k") == "OpCall" and x.get("op") == "=")) and this_member(x["lhs"] if x.get("k") == "Assign" else x["a"][0], (svec,))]
+            passed = [x for x in f.nodes() if is_call(x) and any(this_member(a, (svec,)) for a in x.get("a", []))]
+            tb = cfg_block_of(f, par, n)
+            if cfg is None or tb is None:
+                ck.incomplete(R, "%s: no control-flow graph for the routine" % key)
+                continue
+
+            def relation(x):
+                xb = cfg_block_of(f, par, x)
+                if xb is None:
+                    return None
+                if xb == tb or xb in cfg.dom.get(tb, ()):
+                    return "always"
+                ok_, _ = cfg.must_pass(lambda s_: s_ is x or s_.get("i") == x.get("i"), start=tb)
+                if ok_:
+                    return "always"
+                if xb in cfg.reachable(tb) or tb in cfg.reachable(xb):
+                    return "some"
+                return "never"
+            if kind == "push":
+                # the k-th array pushed onto the vector is described by the k-th entry pushed onto the size table
+                mine = sorted([e_[3] for e_ in events if e_[0] == vec and e_[1] == "push"], key=lambda x: (x.get("l") or 0, x.get("i") or 0))
+                allp = sorted([x for x in f.nodes() if x.get("k") == "MCall" and x.get("n") == "push_back" and this_member(x.get("obj"), (vec,))], key=lambda x: (x.get("l") or 0, x.get("i") or 0))
+                ups_sorted = sorted(ups, key=lambda t: (t[0].get("l") or 0, t[0].get("i") or 0))
+                if len(allp) == len(ups_sorted) and len(allp) > 1 and n in allp:
+                    ups = [ups_sorted[allp.index(n)]]
+            rel = [(x, c_, relation(x)) for x, c_ in ups]
+            always = [(x, c_) for x, c_, r_ in rel if r_ == "always"]
+            some = [(x, c_) for x, c_, r_ in rel if r_ == "some"]
+            if always:
+                same = [c_ for _, c_ in always if norm_extent(c_) == norm_extent(ext)]
+                if same:
+                    ck.ob(R, key, True, "array of extent %s; %s records %s on every path" % (ext, svec, same[0]), f.file, n.get("l"),
+                          sample={"array": vec, "extent": ext, "size-entry": same[0]})
+                else:
+                    ck.incomplete(R, "%s: the array is allocated with extent '%s' but %s records '%s'; whether the two agree is not established" % (key, ext, svec, always[-1][1]))
+            elif some or wholesale or passed:
+                ck.incomplete(R, "%s: %s is updated on some paths only, wholesale, or by a callee (%s); not modelled" % (
+                    key, svec, ", ".join(render(x)[:40] for x in ([y for y, _ in some] + wholesale + passed)[:2])))
+            else:
+                ck.ob(R, key, False, "a new array of extent %s is put into this->%s%s, but on no path through this statement is %s%s updated: Container::_serialize / _serialized_size / clone "
+                      "copy %s entries of the array - after this routine the serialised image has a %s array of the old length" % (
+                          ext, vec, "" if kind == "push" else ".at(%s)" % slot, svec, "" if kind == "push" else ".at(%s)" % slot, svec, vec.lstrip("_")), f.file, n.get("l"))
+
+
+# -------------------------------------------------------------------------------------------------
 # clause 4b: E4 — recursion scheme of the meta containers' stream / file IO
 # -------------------------------------------------------------------------------------------------
 
@@ -4080,6 +4198,9 @@ def declare_rules(ck, thorough):
     ck.rule("E7.reset-covers-state", "in the classes of the in-memory stream (BinaryStream and its buffer) clear() re-establishes every data member that some operation of the "
             "class evolves (content, read/write position) with the value a fresh object has, and a routine that refills the content wholesale resets first; breaks for: a "
             "stream object that is written or read, cleared (or re-filled by read_stream) and used again - the second object lands at the stale position", 4)
+    ck.rule("E7.size-table-follows-array", "every member function of a LAFEM container that puts a freshly allocated array into this->_elements/_indices (push_back or "
+            "replacement of a slot) records the extent of that allocation in the matching entry of _elements_size/_indices_size on every path through it; the serialiser, "
+            "_serialized_size and clone copy exactly that many entries; breaks for: a sparse vector grown entry by entry past its allocation block and then persisted", 18)
     ck.rule("E12.meta-checkpoint", "meta containers: set_checkpoint_data appends [u64 length of first][first][rest] and returns the bytes appended; restore_from_checkpoint_data reads "
             "that word, hands exactly [8, 8+length) to the same sub-object and the remainder to the rest; get_checkpoint_size covers it", 60)
     ck.rule("E12.length-width", "a length word read from a checkpoint stream is used in offset arithmetic at its full width (no narrowing to a 32-bit signed type); "
@@ -4128,6 +4249,7 @@ def run_on(ck, facts, primary):
         check_checkpoint_control(ck, facts)
         check_checkpoint_state(ck, facts)
         check_reset_state(ck, facts)
+        check_size_tables(ck, facts)
         check_meta_checkpoints(ck, facts)
         check_meta_stream_recursion(ck, facts)
         check_meta_file_recursion(ck, facts)
